@@ -29,7 +29,7 @@ func init() {
 			return 320
 		},
 		Run:     runC01,
-		Require: []string{"op_put", "op_del", "op_compact", "programs_with_chain", "splits_seen", "free_list_seen", "compactions_effective"},
+		Require: []string{"seed_zero_programs", "op_put", "op_del", "op_compact", "programs_with_chain", "splits_seen", "free_list_seen", "compactions_effective"},
 	})
 }
 
@@ -85,12 +85,23 @@ func progData(seed uint32, fsk core.FSKind, cfg core.Config, ks *core.KeySet, op
 func runC01(c *core.Ctx) {
 	rng := c.Rng
 	seed := rng.Uint32()
-	core.PinSeed(seed)
+	switch c.Case % 16 {
+	case 9:
+		seed = 0 // boundary values of the seed space are legal seeds too
+		c.Stat("seed_zero_programs", 1)
+	case 13:
+		seed = 0xffffffff
+	}
+	if seed == 0 || seed == 0xffffffff {
+		core.PinSeedOnce(seed)
+	} else {
+		core.PinSeed(seed)
+	}
 	ks := core.GenKeys(rng, seed, randKeySpec(c))
 	cfg := core.RandConfig(rng)
 	fsk := pickFS(c)
 	nops := 200 + rng.Intn(1800)
-	ops := core.GenOps(rng, ks, core.ProgSpec{NOps: nops, CompactPct: 40})
+	ops := core.GenOps(rng, ks, core.ProgSpec{NOps: nops, CompactPct: 40, Reopen: c.Case%16 == 9 || c.Case%16 == 13})
 	env := core.NewEnv(fsk)
 	defer env.Cleanup()
 	x, err := core.NewExec(c, env, cfg, ks.Keys)
